@@ -110,8 +110,14 @@ def model_run(name, tier, seed):
     module, qcfg, tcfg, parsers, limit = MODELS[name]
     cfg = qcfg if tier == "quick" else tcfg
     th = vf.tree_hash()
-    cdir = os.path.join(vf.OUT, "cache", th, "model-%s-%s%s" % (name, tier, "-%d" % seed if name == "cachesim" else ""))
+    mkey = "model-%s-%s%s" % (name, tier, "-%d" % seed if name == "cachesim" else "")
+    cdir = os.path.join(vf.OUT, "cache", th, mkey)
     done = os.path.join(cdir, "model.json")
+    with cache_lock(th, mkey):
+        return _model_run(name, tier, seed, module, cfg, th, cdir, done)
+
+
+def _model_run(name, tier, seed, module, cfg, th, cdir, done):
     if os.path.exists(done):
         with open(done) as f:
             return json.load(f)
@@ -178,6 +184,29 @@ def driver_run(name, tier, seed, puf=True, keep_trace=False, release=False):
     key = "%s-%s-%d-%s%s" % (name, tier, seed, "puf" if puf else "nopuf", "-release" if release else "")
     cdir = os.path.join(vf.OUT, "cache", th, key)
     done = os.path.join(cdir, "result.json")
+    with cache_lock(th, key):
+        return _driver_run(name, tier, seed, puf, keep_trace, release, binary, th, cdir, done)
+
+
+def cache_lock(th, key):
+    """checks started side by side share drivers and models: the first computes, the others wait and reuse"""
+    import fcntl
+    import contextlib
+
+    @contextlib.contextmanager
+    def cm():
+        d = os.path.join(vf.OUT, "cache", th)
+        os.makedirs(d, exist_ok=True)
+        with open(os.path.join(d, key.replace("/", "_") + ".lock"), "w") as lf:
+            fcntl.flock(lf, fcntl.LOCK_EX)
+            try:
+                yield
+            finally:
+                fcntl.flock(lf, fcntl.LOCK_UN)
+    return cm()
+
+
+def _driver_run(name, tier, seed, puf, keep_trace, release, binary, th, cdir, done):
     if os.path.exists(done):
         with open(done) as f:
             return json.load(f)
@@ -219,7 +248,8 @@ def driver_run(name, tier, seed, puf=True, keep_trace=False, release=False):
 def prune_cache(keep):
     root = os.path.join(vf.OUT, "cache")
     for d in os.listdir(root):
-        if d != keep:
+        # (results for another state of the tree; one touched in the last half hour may belong to a run in progress)
+        if d != keep and time.time() - os.path.getmtime(os.path.join(root, d)) > 1800:
             shutil.rmtree(os.path.join(root, d), ignore_errors=True)
 
 
